@@ -935,6 +935,9 @@ get_trait(has_traits_object *obj, PyObject *name, int instance)
         if ((trait = get_prefix_trait(obj, name, 0)) == NULL) {
             return NULL;
         }
+        /* Python code run by get_prefix_trait may have created the instance
+           trait dictionary in the meantime. */
+        itrait_dict = obj->itrait_dict;
     }
 
     assert(PyTrait_CheckExact(trait));
